@@ -155,7 +155,9 @@ T_C08 = [('Bashlex.C08.' + t, C08M) for t in ['C08_accept_derivable', 'C08_accep
          'C08_heredoc_unterminated', 'C08_heredoc_strict']]
 T_C08 += [('Bashlex.C08.' + t, 'Bashlex.Props.C08More') for t in ['balance_ok', 'sentence_balanced', 'C08_unclosed_never_accepted', 'cert_ok', 'valid_noBad', 'C08_adjacent_never_accepted', 'C08_parts_clean',
           'C08_unterminated_brace', 'C08_unterminated_arith', 'unterminated_trigger', 'C08_accept_text_conditional']]
+T_C08 += [('Bashlex.C08.' + t, 'Bashlex.Props.C08Text') for t in ['C08_accept_text_full', 'C08_accept_text', 'C08_accept_text_chars', 'C08_accept_text_final']] + [('Bashlex.LR.run_sound_ordC', 'Bashlex.Props.C08Text'), ('Bashlex.C05.leaves_hooksT', 'Bashlex.Props.C08Text')]
 reg('C08', 'propchecks.c08', 'proof', T_C08 + T1, [ASCII, DEPTH, CORR,
+    'Props/C08Text.lean: C08_accept_text_full (UNCONDITIONAL but for the fuel bound |s|+1 < 2^30; the hypothesis LogLink is gone - the C05 engine pass was redone with an invariant indexed by the consumed terminals: run_sound_ordC, leaves_hooksT): whenever parse returns parts, the runs tile the text of s, and each run has ONE token log that (a) is anchored in the text - Skip token Skip token ..., every position a leaf, layout or the look-ahead, here-document bodies conserved - and (b) spells, terminal by terminal, NEWLINEs followed by a sentence of the declared grammar; behind the last part the rest is layout. Nothing of an accepted input is left unparsed and nothing underivable is accepted. ',
     'Props/C08More.lean: C08_unclosed_never_accepted - for every token source, what the engine accepts is BALANCED (balance_ok, kernel-decided on the regenerated productions: #{ = #}, #if = #fi, #case = #esac, #do = #done, #[[ = #]], #if + #elif = #then, #( <= #), ...), so a stream that meets $end with an opener still open has no normal return; C08_adjacent_never_accepted - no accepted stream holds a doubled or dangling control operator among 28 pairs over ; & && || | |& (FIRST/LAST/nullable certificates checked by the kernel: cert_ok); the four pairs after ; are derivable (! ; ; a is accepted) and left out; C08_parts_clean: both facts for the run behind every returned part; C08_unterminated_brace / _arith (all lengths). C08_accept_text_conditional (the text-level tiling) keeps the hypothesis LogLink. ',
     'Props/C08*.lean (3050 lines): (1) C08_accept_derivable - NO PREFIX ACCEPTANCE: whenever parse returns parts, the runs tile the input (run i+1 starts at the restart index after part i, the last run ends at or beyond the end) and every run consumed '
     'leading NEWLINEs followed by exactly the yield of a valid derivation tree of the declared grammar rooted in an accepting symbol (engine_good, from C09_exact; run_consumed: the delivered terminals are consumed ++ at most one look-ahead); '
